@@ -136,8 +136,8 @@ def l3_batch(seed, count, nq, driver, outdir, binary=None, profiles=("opt", "loo
             # access/egress maxima vary: every generated table row is <= 600 s and the stub answers 100000 s for a stop that is
             # not in the table, so every maximum in [600, 100000) must give the model's answer; the large values exercise the
             # walking-radius arithmetic in front of the router ("no limit" is exercised by C18's requests)
-            q["maxacc"] = r.choice([1200, 1200, 900, 40000, 99999])
-            q["maxegr"] = r.choice([1200, 1200, 900, 40000, 99999])
+            q["maxacc"] = r.choice([1200, 1200, 900, 40000, 99999, 120, 300])
+            q["maxegr"] = r.choice([1200, 1200, 900, 40000, 99999, 120, 300])
             # boundary: a maximum EQUAL to the walking time of one of the rows (the row is kept: `<=`), so that rows slower
             # than it are dropped by the server as they are by l3.effective_rows
             for key, rows in (("maxacc", acc), ("maxegr", egr)):
